@@ -76,6 +76,7 @@ Say(tag, pred, site, k) ==
   PrintT(tag \o " " \o ToJson([pred |-> pred, site |-> site, kind |-> k, line |-> l - 1,
                                equiv |-> [prevote |-> Equiv("prevote"), precommit |-> Equiv("precommit")],
                                perblock |-> [prevote |-> PerBlock("prevote"), precommit |-> PerBlock("precommit")],
+                               pow |-> pow, state |-> [votes |-> StateJson.votes, keys |-> keys],
                                obs |-> obs]))
 Chk(ok, pred, site, k) == ok \/ Say("VIOL", pred, site, k)
 SiteOf(k) == IF k = "prevote" THEN "SetPrevotePowers" ELSE "SetPrecommitPowers"
